@@ -2,11 +2,14 @@ package c06
 
 import (
 	"fmt"
+	"strings"
 
 	"github.com/nspcc-dev/neo-go/pkg/core/block"
 	ck "verifharness/chainkit"
 	"verifharness/vt"
 )
+
+const knownTransferLog = "refused-block-bumps-transfer-log-counter"
 
 // runNextHeaderMismatch reaches the storeBlock error return that follows the state computation: the node trusts
 // header N+1 (B's) and a header N+2 signed by the right validators but carrying a wrong PrevStateRoot (a header
@@ -72,7 +75,24 @@ func runNextHeaderMismatch(w *world, cr Corruption, o *vt.Obs) error {
 	if err != nil {
 		return err
 	}
-	if d := diffRaw(raw, traw, nil); d != "" {
+	var allow map[string]bool
+	if vt.Known(knownTransferLog) {
+		// Known finding: the refused block's token transfers bump the entry counter of committed transfer-log
+		// records in place. Those records are left out; everything else is still compared.
+		allow = map[string]bool{}
+		hit := false
+		for k, v := range raw {
+			if (strings.HasPrefix(k, "72") || strings.HasPrefix(k, "73")) && traw[k] != v {
+				allow[k] = true
+				hit = true
+			}
+		}
+		if hit {
+			o.Excluded()
+			reconfirm(knownTransferLog, "reconfirmed: transfer-log record changed by a refused block")
+		}
+	}
+	if d := diffRaw(raw, traw, allow); d != "" {
 		return fmt.Errorf("%s: B refused (%v) but the backend after a flush differs from a twin that never saw B: %s", where, firstLine(aerr.Error()), d)
 	}
 	// Submitting it again must give the same answer and still change nothing (in-memory state of the state module).
